@@ -33,31 +33,11 @@ func TestVerif(t *testing.T) {
 	})
 }
 
-func universe() *DAG {
-	d := &DAG{Name: "c10"}
-	b1 := d.Blob("B1", MTConfig, "{}")
-	b2 := d.Blob("B2", MTLayer, "layer-2")
-	m1 := d.Manifest("M1", b1, []int{b2}, ManifestOpt{Subject: -1})
-	d.Manifest("M2", b1, nil, ManifestOpt{Subject: m1, ArtifactType: "application/vnd.test.ref"})
-	d.Blob("B3", MTLayer, strings.Repeat("x", 100))
-	return d
-}
+func universe() *DAG { return CrashUniverse() }
 
 var refs = []string{"a", "b", "c"}
 
-func alphabet(d *DAG) []Op {
-	var ops []Op
-	for i := range d.Nodes {
-		ops = append(ops, Op{Kind: "push", Node: i})
-	}
-	ops = append(ops,
-		Op{Kind: "tag", Node: 2, Ref: "a"}, Op{Kind: "tag", Node: 3, Ref: "a"}, Op{Kind: "tag", Node: 2, Ref: "b"},
-		Op{Kind: "tag", Node: 0, Ref: "c"}, Op{Kind: "tag", Node: 3, Ref: "b", Ann: true}, Op{Kind: "tag", Node: 4, Ref: "c"},
-		Op{Kind: "untag", Ref: "a"}, Op{Kind: "untag", Ref: "b"},
-		Op{Kind: "delete", Node: 0}, Op{Kind: "delete", Node: 2}, Op{Kind: "delete", Node: 3}, Op{Kind: "delete", Node: 1},
-		Op{Kind: "gc"}, Op{Kind: "save"})
-	return ops
-}
+func alphabet(d *DAG) []Op { return CrashAlphabet(d) }
 
 func jobs(tier string) []driver.Job {
 	var out []driver.Job
@@ -81,7 +61,7 @@ func jobs(tier string) []driver.Job {
 			}})
 		}
 	}
-	return out
+	return append(confJobs(th), out...)
 }
 
 // replay runs hist on a fresh initialised layout under plan; it returns the
